@@ -37,7 +37,7 @@ mutual
     | o :: os => encodeTo o ++ encodeItems os
 end
 
-inductive Err | truncated | tooLong | negative | leadingZero | beyondData | indefinitePrimitive | invalid | fuel
+inductive Err | truncated | tooLong | negative | leadingZero | beyondData | indefinitePrimitive | invalid | fuel | tooDeep
 deriving Repr, DecidableEq
 
 /-- read the (possibly multi-byte) tag starting at `offset`: returns the offset after the tag -/
@@ -62,11 +62,14 @@ def readLength (ber : Bytes) (off : Nat) (l : Byte) : Except Err (Nat × Nat × 
   else if l.toNat = 0x80 then .ok (0, off, true)
   else .ok (l.toNat, off, false)
 
+/-- `maxBERDepth`: bound on the nesting of constructed encodings that `ber2der` follows -/
+def maxBERDepth : Nat := 128
+
 mutual
-  /-- `readObject(ber, offset)`: the object and the offset after it -/
-  def readObject : Nat → Bytes → Nat → Except Err (Obj × Nat)
-    | 0, _, _ => .error .fuel
-    | fuel+1, ber, offset =>
+  /-- `readObjectDepth(ber, offset, depth)`: the object and the offset after it -/
+  def readObject : Nat → Bytes → Nat → Nat → Except Err (Obj × Nat)
+    | 0, _, _, _ => .error .fuel
+    | fuel+1, ber, offset, depth =>
       match ber[offset]? with
       | none => .error .truncated
       | some b =>
@@ -90,18 +93,20 @@ mutual
               else
                 let tag := (ber.drop tagStart).take (tagEnd - tagStart)
                 if ¬ constructed then .ok (.prim tag ((ber.drop off).take length), contentEnd)
+                else if depth ≥ maxBERDepth then .error .tooDeep
                 else
-                  match readItems fuel ber off contentEnd indefinite with
+                  match readItems fuel ber off contentEnd indefinite (depth + 1) with
                   | .error e => .error e
                   | .ok (items, off') =>
                     .ok (.cons tag items, if indefinite then off' + 2 else contentEnd)
-  /-- the loop `for (offset < contentEnd) || indefinite { subObj, offset = readObject(...) … }` -/
-  def readItems : Nat → Bytes → Nat → Nat → Bool → Except Err (List Obj × Nat)
-    | 0, _, _, _, _ => .error .fuel
-    | fuel+1, ber, offset, contentEnd, indefinite =>
+  /-- the loop `for (offset < contentEnd) || indefinite { subObj, offset = readObjectDepth(..., depth) … }`
+      (`depth` is the depth of the children, i.e. that of the enclosing object plus one) -/
+  def readItems : Nat → Bytes → Nat → Nat → Bool → Nat → Except Err (List Obj × Nat)
+    | 0, _, _, _, _, _ => .error .fuel
+    | fuel+1, ber, offset, contentEnd, indefinite, depth =>
       if ¬ (offset < contentEnd ∨ indefinite) then .ok ([], offset)
       else
-        match readObject fuel ber offset with
+        match readObject fuel ber offset depth with
         | .error e => .error e
         | .ok (o, off') =>
           if indefinite then
@@ -109,19 +114,19 @@ mutual
             if ber.length - off' < 2 then .error .invalid
             else if ber.getD off' 1 = 0 ∧ ber.getD (off' + 1) 1 = 0 then .ok ([o], off')
             else
-              match readItems fuel ber off' contentEnd indefinite with
+              match readItems fuel ber off' contentEnd indefinite depth with
               | .error e => .error e
               | .ok (os, off'') => .ok (o :: os, off'')
           else
-            match readItems fuel ber off' contentEnd indefinite with
+            match readItems fuel ber off' contentEnd indefinite depth with
             | .error e => .error e
             | .ok (os, off'') => .ok (o :: os, off'')
 end
 
-/-- `ber2der` -/
+/-- `ber2der` (`readObject(ber, 0)` = `readObjectDepth(ber, 0, 0)`) -/
 def ber2der (ber : Bytes) : Except Err Bytes :=
   if ber.isEmpty then .error .invalid
-  else match readObject (2 * ber.length + 2) ber 0 with
+  else match readObject (2 * ber.length + 2) ber 0 0 with
     | .error e => .error e
     | .ok (o, _) => .ok (encodeTo o)
 
